@@ -96,7 +96,11 @@ fn c10_for(lname: &str, comp: Comp, thorough: bool, seed: u64) -> Vec<CaseOut> {
     // entry-point file, so the set of files can be handled as a whole)
     if !l.extra_packs.is_empty() {
         for (pname, p) in [("OneFile", Packaging::OneFile), ("TwoFiles", Packaging::TwoFiles), ("NoConcat", Packaging::NoConcat)] {
-            for (where_, rel) in [("same", "main"), ("below", "main/sub/deeper"), ("sibling", "extras"), ("parent", "."), ("cousin", "other/place")] {
+            // "../<dir>/c.extra2.jbkc" is 17 bytes longer than <dir>: recorded locations of exactly 212
+            // and 213 bytes (the longest the format can hold)
+            let long212 = "x".repeat(212 - 17);
+            let long213 = "y".repeat(213 - 17);
+            for (where_, rel) in [("same", "main"), ("below", "main/sub/deeper"), ("sibling", "extras"), ("parent", "."), ("cousin", "other/place"), ("location-of-212-bytes", long212.as_str()), ("location-of-213-bytes", long213.as_str())] {
                 let root = base.path().join(format!("place-{pname}-{where_}"));
                 let tree = root.join("tree");
                 let main = tree.join("main");
@@ -151,6 +155,52 @@ fn c10_for(lname: &str, comp: Comp, thorough: bool, seed: u64) -> Vec<CaseOut> {
                 }
             }
             Err(e) => record(format!("symlinked-packs:{pname}"), Err(("creation failed".into(), e)), cj("symlinked-packs")),
+        }
+    }
+    // a3. destination file names: the names of the pack files are derived from the destination
+    // (extension replaced), so the destination's own extension matters. Whatever the name, creation
+    // gives a container that reads like the one-file packaging; only when a derived pack path IS the
+    // destination path may creation refuse instead (nothing can be stored there twice).
+    for (pname, p) in [("OneFile", Packaging::OneFile), ("TwoFiles", Packaging::TwoFiles), ("NoConcat", Packaging::NoConcat)] {
+        // stems of 207..209 and 250 bytes: the derived file names ("<stem>.jbkc", "<stem>..jbkd") are
+        // recorded as locations, which hold at most 213 bytes
+        let long: Vec<String> = [207usize, 208, 209, 250].iter().map(|n| format!("{}.jbk", "s".repeat(*n))).collect();
+        let mut names: Vec<&str> = vec!["c", "c.", ".c", "c.tar.jbk", "c.JBKC", "c.jbkm", "c.jbkd", "c..jbkd", "c.jbkc", "d.e/c.jbkc"];
+        names.extend(long.iter().map(|s| s.as_str()));
+        for name in names {
+            let d = base.path().join(format!("destname-{pname}-{}-{}", name.len(), name.chars().take(20).collect::<String>().replace(['.', '/'], "_")));
+            let dd = d.join(Path::new(name).parent().unwrap_or(Path::new("")));
+            std::fs::create_dir_all(&dd).unwrap();
+            let up = camino::Utf8PathBuf::from_path_buf(d.join(name)).unwrap();
+            let mut derived = vec![];
+            if !matches!(p, Packaging::OneFile) {
+                derived.push(up.with_extension("jbkc"));
+            }
+            if matches!(p, Packaging::NoConcat) {
+                let mut x = up.clone();
+                x.set_extension(".jbkd");
+                derived.push(x);
+            }
+            let collides = derived.contains(&up);
+            let too_long = derived.iter().any(|x| x.file_name().map_or(0, |f| f.len()) > 213);
+            let shown = if name.len() > 40 { format!("{}-byte stem", name.len() - 4) } else { name.to_string() };
+            let name_id = shown.clone();
+            let what = format!("destination-name:{pname}:{name_id}");
+            let cj = json!({"engine":"packmc","sub":"c10","logical":lname,"comp":comp.name(),"packaging":format!("destname-{pname}"),"name":shown});
+            match create_logical_named(&l, comp, p, &d, name, "c", &dd) {
+                Ok(c) => record(what, dump_vs_model(&l, &c.path).map(|_| ()), cj),
+                Err(e) if (collides && !e.starts_with("panic")) || too_long => {
+                    // refused: nothing may have been left at the destination
+                    if d.join(name).exists() {
+                        record(what, Err(("creation refused but the destination exists".into(), e)), cj)
+                    } else if too_long {
+                        record(format!("destination-name(refused, a pack file name does not fit a location):{pname}:{name_id}"), Ok(()), cj);
+                    } else {
+                        record(format!("destination-name(refused, a pack file would take the destination's path):{pname}:{name_id}"), Ok(()), cj);
+                    }
+                }
+                Err(e) => record(what, Err(("creation failed".into(), e)), cj),
+            }
         }
     }
     // b. concat of the separate files in every order
@@ -322,7 +372,21 @@ fn c10(args: &Args) -> ! {
         configs = vec![(leaked, comp)];
     }
     let seed = args.seed;
-    let results: Vec<Vec<CaseOut>> = configs.par_iter().map(|(l, c)| c10_for(l, *c, t, seed)).collect();
+    let results: Vec<Vec<CaseOut>> = configs
+        .par_iter()
+        .map(|(l, c)| match jbkmc::catch(|| c10_for(l, *c, t, seed)) {
+            Ok(v) => v,
+            Err(p) => {
+                // a panic outside the per-case guards: the library's when it comes from its sources
+                let key = if !p.starts_with('/') { format!("MACHINERY harness panic {}", jbkmc::panic_site(&p)) } else { format!("C10 panic {}", jbkmc::panic_site(&p)) };
+                vec![CaseOut {
+                    id: format!("{l}/{}:panic", c.name()),
+                    outcome: "violation".into(),
+                    violation: Some((key, format!("{l}/{}: {p}", c.name()), json!({"engine":"packmc","sub":"c10","logical":l,"comp":c.name()}))),
+                }]
+            }
+        })
+        .collect();
     for r in results.into_iter().flatten() {
         rep.case(Some(&r.id), &r.outcome);
         if rep.samples.len() < 5 && (r.id.contains("concat:") || r.id.contains("prefix")) {
